@@ -6,7 +6,7 @@ V = os.path.dirname(os.path.dirname(os.path.abspath(__file__)))
 CLAIMED = sys.argv[1:]
 props = [json.loads(l) for l in open(os.path.join(V, "properties.jsonl"))]
 NOTE = {
- "C20": "PARTIAL: proof covers the shape-strictness clause (generic shape-check model theorems; contracts re-extracted from the source on every run; 'accepted iff a documented form' proved for ALL shapes for 77 of 88 array-taking callables and over a finite shape universe for the rest); the stacked=row-by-row clause is proved per function in the other properties and validated here over the whole API; purity/determinism are validated only (a Gallina function cannot mutate its argument).",
+ "C20": "PARTIAL: proof covers the shape-strictness clause (generic shape-check model theorems; contracts re-extracted from the source on every run; 'accepted iff a documented form' proved for ALL shapes for 58 of the 88 array-taking callables, for 20 delegating ones for all shapes in contract terms only, over a finite shape universe for 8, 2 exempt); the stacked=row-by-row clause is proved per function in the other properties and validated here over the whole API; purity/determinism are validated only (a Gallina function cannot mutate its argument).",
  "C10": "Properness, axis, perpendicular turn, round trips (generic + half-turn), norm bound, Jacobian = derivative (all 27 entries, Coquelicot), Jacobian composition and dispatch are proved; the zero-zone snapping bound and the derivative at r = 0 are proved; PARTIAL: the 2.5e-5 bound in the half-turn zone (paper bound 4e-5 for the repaired code, not mechanised) and the derivative for 0 < |r| < eps are sampled by the oracle only; SVD/acos/cos/sin are trusted through stated contracts.",
  "C09": "Refinement of every listed operation (incl. the sort-based insertion and both index maps, for all sizes) and of every finite history to the list-of-points spec is proved; PARTIAL only in that immutability/aliasing (not a Gallina notion) is validated by the harness, not proved.",
  "C07": "Nearest/closest-point clauses proved for all inputs; the sub-path clauses (sliced_at_points open, closed, wrap-around incl. the closing edge; aligned_along_subsegment post-conditions, open and closed) are proved about the ORIGINAL polyline under an explicit uniqueness hypothesis that formalises 'does not touch itself', each with a non-vacuity example; PARTIAL only for `every requested output is returned`: known finding (ret_t_values alone drops t) pinned by the test-suite.",
